@@ -1686,6 +1686,13 @@ class PrepareAst:
 
             target.lock_variables()
 
+            def after_iterable(stmt: out.Statement):
+                # the statements bound to the iterable expression
+                # are evaluated once, before the (unrolled) loop
+                if len(iterable_expr.bound_statements()) == 0:
+                    return stmt
+                return out.CodeBlock([iterable_expr, stmt])
+
             if not use_if_else:
                 if body_cnt == 0:
                     assert len(result) == 0
@@ -1693,12 +1700,12 @@ class PrepareAst:
                     # since loops containing an if statements terminated with break
                     # are allowed to have an else block, so are empty for loops since
                     # they are equivalent to the former case running zero times
-                    return self.apply(inp.orelse)
+                    return after_iterable(self.apply(inp.orelse))
 
                 assert (
                     len(inp.orelse) == 0
                 ), "for else only supported for the special case where the for loop contains only a single if statement with trailing break or return"
-                return out.CodeBlock(result)
+                return after_iterable(out.CodeBlock(result))
 
             #
             # handle special case, where for loop contains break
@@ -1714,8 +1721,10 @@ class PrepareAst:
             else:
                 default = self.apply(inp.orelse)
 
-            return out.CondSelect(
-                [(if_stmt._test, if_stmt._body) for if_stmt in result], default
+            return after_iterable(
+                out.CondSelect(
+                    [(if_stmt._test, if_stmt._body) for if_stmt in result], default
+                )
             )
 
         if isinstance(inp, ast.ListComp):
@@ -1731,7 +1740,8 @@ class PrepareAst:
             iterable_expr = cast(out.Expression, self.apply(gen.iter))
             iterable = iterable_expr.result()
 
-            bound_expr: list[out.Expression] = []
+            # the statements bound to the iterable are evaluated first
+            bound_expr: list[out.Expression] = [iterable_expr]
             result_expr: list[out.Expression] = []
 
             for elt in iterable:
@@ -1775,7 +1785,8 @@ class PrepareAst:
             iterable_expr = cast(out.Expression, self.apply(gen.iter))
             iterable = iterable_expr.result()
 
-            bound_expr: list[out.Expression] = []
+            # the statements bound to the iterable are evaluated first
+            bound_expr: list[out.Expression] = [iterable_expr]
 
             result = {}
 
